@@ -37,7 +37,18 @@ class NotAffine(Exception):
     pass
 
 
-def idx(n, env):
+def idx(n, env, sides=None):
+    if isinstance(n, ast.Call) and U(n.func) == "sum" and len(n.args) == 1 and isinstance(n.args[0], (ast.GeneratorExp, ast.ListComp)) and len(n.args[0].generators) == 1:
+        # sum(x.code_pkg.size for x in statements[a:b])  =  A[b] - A[a]   (for a <= b: recorded as a side condition)
+        g = n.args[0].generators[0]
+        if isinstance(g.iter, ast.Subscript) and isinstance(g.iter.slice, ast.Slice) and not g.ifs and isinstance(g.target, ast.Name) \
+                and re.fullmatch(r"%s\.code_pkg\.size" % re.escape(g.target.id), U(n.args[0].elt)):
+            a = idx(g.iter.slice.lower, env, sides) if g.iter.slice.lower else Aff(c=0)
+            b = idx(g.iter.slice.upper, env, sides)
+            if sides is not None:
+                sides.append((a, b, n))
+            return A(b) - A(a)
+        raise NotAffine(U(n))
     if isinstance(n, ast.Name):
         if n.id in env:
             return env[n.id]
@@ -45,8 +56,16 @@ def idx(n, env):
     if isinstance(n, ast.Constant) and isinstance(n.value, int) and not isinstance(n.value, bool):
         return Aff(c=n.value)
     if isinstance(n, ast.BinOp) and isinstance(n.op, (ast.Add, ast.Sub)):
-        l, r = idx(n.left, env), idx(n.right, env)
+        l, r = idx(n.left, env, sides), idx(n.right, env, sides)
         return l + r if isinstance(n.op, ast.Add) else l - r
+    if isinstance(n, ast.BinOp) and isinstance(n.op, ast.Mult):
+        l, r = idx(n.left, env, sides), idx(n.right, env, sides)
+        if not l.t:
+            return Aff({k: v * l.c for k, v in r.t.items()}, r.c * l.c)
+        if not r.t:
+            return Aff({k: v * r.c for k, v in l.t.items()}, l.c * r.c)
+    if isinstance(n, ast.Attribute) and U(n) in ("self.code_pkg.size", "self.code_pkg.max_size", "self.instruction.mode.rel_sz"):
+        return env.get(U(n), Aff({U(n): 1}))
     raise NotAffine(U(n))
 
 
@@ -86,6 +105,7 @@ class BranchEval:
         self.this_name, self.target_name = this_name, target_name
         self.out = []          # emitted: (conds, value Aff, hint Aff, guards, side_conditions)
         self.notes = []
+        self.origins = {}      # free symbol -> source text of the non-affine expression it stands for
 
     def run(self, stmts, env, conds, guards, sides):
         for k, s in enumerate(stmts):
@@ -100,14 +120,14 @@ class BranchEval:
                         e2 = dict(env)
                         c2 = list(conds) + ([(U(v.test), truth)] if known is None else [])
                         try:
-                            e2[t] = idx(v.body if truth else v.orelse, e2)
+                            e2[t] = idx(v.body if truth else v.orelse, e2, sides)
                         except NotAffine:
                             e2[t] = Aff({t: 1})
                         self.run(stmts[k + 1:], e2, c2, list(guards), list(sides))
                     return
                 if isinstance(v, ast.Call) and U(v.func) == "NumericValue" and t.endswith("code_pkg.additional"):
                     try:
-                        val = idx(v.args[0], env)
+                        val = idx(v.args[0], env, sides)
                         hint = next((idx(kw.value, env) for kw in v.keywords if kw.arg == "size_hint"), None)
                     except NotAffine as e:
                         self.notes.append("emission not affine: %s" % e)
@@ -115,9 +135,10 @@ class BranchEval:
                     self.out.append((list(conds), val, hint, list(guards), list(sides), s))
                     continue
                 try:
-                    env[t] = idx(v, env)
+                    env[t] = idx(v, env, sides)
                 except NotAffine:
                     env[t] = Aff({t: 1})
+                    self.origins[t] = U(v)
             elif isinstance(s, ast.For) and isinstance(s.iter, ast.Subscript) and isinstance(s.iter.slice, ast.Slice):
                 try:
                     a = idx(s.iter.slice.lower, env) if s.iter.slice.lower else Aff(c=0)
@@ -182,6 +203,27 @@ def rel1(ctx, c):
         direction = "backward" if hi is not None and hi <= 0 else ("forward" if lo is not None and lo >= 0 else "?")
         site = "fix_addresses:%s/%s" % ("short" if short else ("long" if short is False else "any"), direction)
         w = repo.loc(fn, node)
+        SIZEVARS = {"self.code_pkg.size", "self.code_pkg.max_size", "self.instruction.mode.rel_sz"}
+        if hint is not None and hint.t and set(hint.t) <= SIZEVARS:
+            # the width is derived from the statement's size: evaluate it for every branch row of the instruction table
+            eff_rows, _ = ctx.effective_rows()
+            wrong = []
+            for m_, r_ in sorted(eff_rows.items(), key=lambda kv: str(kv[0])):
+                if r_.flags["is_pseudo"] or r_.modes["rel"][0] is None:
+                    continue
+                is_s = bool(r_.flags["is_short_branch"])
+                if short is not None and short != is_s:
+                    continue
+                hv = hint.c + sum(k_ * r_.modes["rel"][1] for k_ in hint.t.values())
+                if hv != (2 if is_s else 4):
+                    wrong.append((m_, hv, 2 if is_s else 4))
+            if wrong:
+                c.finding(site + ":width", "width derived from the statement size is %s hex digits for %s" % (wrong[0][1], wrong[0][0]),
+                          "fix_addresses renders the displacement with size_hint %r: for %s (size %s) that is %s hex digits where the field has %s (%d of the branch rows are wrong), "
+                          "so the bytes after the opcode are not the displacement" % (hint, wrong[0][0], eff_rows[wrong[0][0]].modes["rel"][1], wrong[0][1], wrong[0][2], len(wrong)), w)
+            else:
+                c.ok(site + ":width", "width derived from the statement size equals the field width for every branch row", w)
+            continue
         if hint is None or hint.t:
             c.undecided(site, "size-hint-not-constant", repr(hint), w)
             continue
@@ -189,7 +231,16 @@ def rel1(ctx, c):
         want = A(Aff({"target": 1})) - A(Aff({"this": 1}, 1))
         diff = val - want
         okid = (not diff.t) and diff.c % mod == 0
-        c.check(okid, site + ":identity", "emitted = A[target] - A[this+1] (mod %#x)" % mod, "emitted - displacement = %r (mod %#x)" % (diff, mod),
+        free = [k for k in diff.t if not k.startswith("A[")]
+        cached = [ev.origins.get(k, k) for k in free if re.search(r"\b(Statement|cls|type\(self\)|self\.__class__)\.\w+\[", ev.origins.get(k, k))]
+        if cached:
+            c.finding(site + ":identity", "the distance is read from %s, a table kept on the class" % cached[0].split("[")[0],
+                      "fix_addresses takes the branch distance from `%s`, state stored on the class and reused between calls (and between programs): it is right only while the "
+                      "table still describes this statement list - lists that merely compare equal, or a list edited in place, get the distances of another layout" % cached[0], w)
+        elif free:
+            c.undecided(site + ":identity", "the emitted value depends on %s, which the evaluation could not express through statement addresses" % ", ".join(sorted(free)), repr(diff)[:100], w)
+        else:
+          c.check(okid, site + ":identity", "emitted = A[target] - A[this+1] (mod %#x)" % mod, "emitted - displacement = %r (mod %#x)" % (diff, mod),
                 "fix_addresses emits %r for a %s %s branch; the displacement is A[target] - A[this+1], difference %r is not a multiple of %#x"
                 % (val, "short" if short else "long", direction, diff, mod), w)
         if short is True:
